@@ -1,5 +1,6 @@
 import PwVerif.Model.Signal
 import PwVerif.Model.Signal2
+import PwVerif.Model.FlowExecQ
 import PwVerif.Model.Proto
 /-!
 Line-protocol driver for C02.
@@ -27,6 +28,7 @@ Flow level (children of one composite are numbers, an emitting channel is 4*node
   owner <i> <0|1>   macro <m>   mstarters <i> …   two composites: children of the macro child m of the workflow
   run2 <fuel> <steps>                           the workflow with its hand-wired macro child (two queues)
   heal <i> …   replace <i>   pull <i>   ddisc <i> <slot> <src>    edits between wiring and running (Model Part E)
+  onexec <i> …   mid <c> <j> …   idle <j> …   xrun <fuel>   children on a controllable executor and the landing schedule
   roundtrip                                     state round trip of the composite (connections stored as strings and re-made)
   quiet <i>                                     the wrapped function of child i is not instrumented: leave it out of `calls`
   run <fuel>                                    prints the observations of one composite run
@@ -54,12 +56,15 @@ structure St where
   owner : Nat → Nat            -- two composites: 0 = child of the workflow, 1 = child of its macro child
   macroNode : Nat
   mStarters : List Nat
+  execs : List Nat                       -- children on the controllable executor
+  mids : List (Nat × List Nat)           -- during the c-th local function call these outstanding jobs land (choices)
+  idles : List Nat                       -- which outstanding job lands when the loop has nothing to do (choices)
 
 def init : St :=
   { lab := id, acc := { conns := [], received := [] }, anyc := [],
     n := 0, kinds := fun _ => .term 0, cache := fun _ => false, failAt := fun _ => [],
     slots := fun _ => [], w := Wiring.empty, starters := [], quiet := [],
-    rec0 := fun _ => [], last := none, store0 := Store.init, owner := fun _ => 0, macroNode := 0, mStarters := [] }
+    rec0 := fun _ => [], last := none, store0 := Store.init, owner := fun _ => 0, macroNode := 0, mStarters := [], execs := [], mids := [], idles := [] }
 
 def insertSorted (x : Nat) : List Nat → List Nat
   | [] => [x]
@@ -176,6 +181,42 @@ partial def parseActs (depth : Nat) : List String → Option (List Act × List S
         | some (more, rest3) => some (Act.mk ev boom inner :: more, rest3)
 
 def flagStr (l : List Bool) : String := String.join (l.map fun b => if b then "1" else "0")
+open PwVerif.FlowExec in
+/-- the loop with executor children under the harness's schedule: all starts, then deliveries; a landing scheduled for the
+c-th local function call happens during that call; with nothing to deliver an outstanding job lands -/
+partial def driveExec (s : St) (g : Graph) : Nat → X Nat → Nat → List Nat → X Nat
+  | 0, x, _, _ => x
+  | fuel + 1, x, c, idles =>
+    let stp := xstep s.nodes (fun i => s.execs.contains i) (fun _ _ => 0) (fun _ => 0) g
+    let landAll : X Nat → List Nat → X Nat := fun x js =>
+      js.foldl (fun x j =>
+        let fl := x.s.store.inflight
+        if fl.isEmpty then x else (stp x (.complete (fl.getD (j % fl.length) 0))).getD x) x
+    let localCall : X Nat → X Nat → Bool := fun x x1 =>
+      let n0 := x.s.store.fs.st.callLog.length
+      ((x1.s.store.fs.st.callLog.drop n0).any fun p => !s.execs.contains p.1)
+    let doLocal : XAct → X Nat := fun a =>
+      match stp x a with
+      | none => x
+      | some x1 =>
+        if localCall x x1 then
+          match s.mids.find? (fun m => m.1 == c + 1) with
+          | some m => (stp (landAll x m.2) a).getD x1
+          | none => x1
+        else x1
+    if x.phase = 0 then driveExec s g fuel ((stp x .begin).getD x) c idles
+    else if x.phase ≠ 1 then x
+    else if !x.rest.isEmpty then
+      let x1 := doLocal .start
+      driveExec s g fuel x1 (if localCall x x1 then c + 1 else c) idles
+    else if !x.s.queue.isEmpty then
+      let x1 := doLocal .deliver
+      driveExec s g fuel x1 (if localCall x x1 then c + 1 else c) idles
+    else if !x.s.store.inflight.isEmpty then
+      let j := idles.headD 0
+      driveExec s g fuel (landAll x [j]) c idles.tail
+    else (stp x .finish).getD x
+
 def parseTrig : String → Option Bool
   | "any" => some false
   | "acc" => some true
@@ -380,6 +421,27 @@ def step (s : St) (ws : List String) : St × List String :=
         ({ s with slots := updF s.slots i (modifyNth (s.slots i) k fun sl => { sl with conns := sl.conns.erase src }) }, [])
       else (s, ["bad-op"])
     | _, _, _ => (s, ["bad-op"])
+  | "onexec" :: l =>
+    match nats l with
+    | some l => if l.all (· < s.n) then ({ s with execs := l }, []) else (s, ["bad-op"])
+    | none => (s, ["bad-op"])
+  | "mid" :: c :: js =>
+    match c.toNat?, nats js with
+    | some c, some js => ({ s with mids := s.mids ++ [(c, js)] }, [])
+    | _, _ => (s, ["bad-op"])
+  | "idle" :: js =>
+    match nats js with
+    | some js => ({ s with idles := js }, [])
+    | none => (s, ["bad-op"])
+  | ["xrun", fuel] =>
+    -- one run of the composite with children on the executor (Model/FlowExec.lean), schedule as given by onexec / mid / idle
+    match fuel.toNat? with
+    | some fuel =>
+      let g := s.fin.toGraph
+      let x := driveExec s g fuel (FlowExec.X.init Store.init) 0 s.idles
+      let r : S Store := { store := x.s.store.fs.st, received := x.s.received, queue := x.s.queue, errs := x.s.errs, fired := x.s.fired }
+      (s, runObs s r ++ [s!"phase {x.phase} out {showNats x.s.store.inflight}"])
+    | none => (s, ["bad-op"])
   | ["roundtrip"] =>
     -- the composite goes through __getstate__ / __setstate__ (pickle, save + load): connections re-made from the stored lists
     let ids := List.range s.n
